@@ -355,7 +355,54 @@ def check_history(case, rec):
     return []
 
 
-PARTS = {"roundtrip": check_roundtrip, "corruption": check_corruption, "edge": check_edge, "history": check_history}
+def check_reuse(case, rec):
+    """One Parser object used for several files, among them a malformed one (rejected): what it returns for a
+    well-formed file is what a fresh Parser returns for it."""
+    parser = fresh_parser()
+    texts = []
+    for step in case["steps"]:
+        if step.get("kind"):
+            text = corrupt(step["prog"], step["kind"], step["pick"])
+            if text is None:
+                continue
+            try:
+                parser.parse(text)
+            except SyntaxError:
+                rec.label("reuse:after_rejected_file")
+            except Exception:
+                pass  # (the corruption part owns what a malformed file may raise)
+            continue
+        text = RD.render(step["prog"])[0]
+        try:
+            expected = RD.parsed_program(fresh_parser().parse(text))
+        except Exception:
+            continue  # (the round-trip part owns files a fresh parser does not take)
+        try:
+            got = RD.parsed_program(parser.parse(text))
+        except Exception as exc:
+            return [Failure("reuse|raises:%s" % type(exc).__name__, "file %d on a reused parser: %r\n%r" % (len(texts), exc, text[:300]))]
+        texts.append(text)
+        if got != expected:
+            return [Failure("reuse|differs_from_fresh_parser", "file %d on a reused parser: %r, a fresh parser: %r\n%r" % (len(texts), got, expected, text[:300]))]
+    rec.nontrivial_case(case)
+    return []
+
+
+@st.composite
+def reuse_cases(draw):
+    safe = RD.any_value(("id", "plain1", "id_plain"))
+    steps = []
+    for _ in range(draw(st.integers(2, 5))):
+        step = {"prog": draw(RD.programs(safe, max_commands=4))}
+        if draw(st.integers(0, 2)) == 0:
+            step["kind"] = draw(st.sampled_from(CORRUPTIONS))
+            step["pick"] = draw(st.integers(0, 50))
+        steps.append(step)
+    steps.append({"prog": draw(RD.programs(safe, max_commands=3))})
+    return {"steps": steps}
+
+
+PARTS = {"roundtrip": check_roundtrip, "corruption": check_corruption, "edge": check_edge, "history": check_history, "reuse": check_reuse}
 
 
 def corruption_cases():
@@ -435,5 +482,6 @@ def run_shard(ctx, rec):
     drive(ctx, rec, "roundtrip", RD.programs(), check_roundtrip, ctx.n(3000, 80000), max_novel=8)
     drive(ctx, rec, "corruption", corruption_cases(), check_corruption, ctx.n(1500, 30000))
     drive_enum(ctx, rec, "edge", edge_cases(), check_edge, exhaustive=True)
+    drive(ctx, rec, "reuse", reuse_cases(), check_reuse, ctx.n(600, 12000))
     if ctx.shard < (1 if ctx.quick else 8):
         run_atheris(ctx, rec, 1000 if ctx.quick else 60000)
